@@ -58,6 +58,8 @@ def _function_expectation(b, func_sig):
     pcs = per_call_signatures(b, func_sig)
     if not pcs:
         return None, 'no call forwards a star parameter', pcs
+    if any(t.get('unres') for t, e in pcs):
+        return None, 'the callee of a forwarding call is a local variable (cannot be resolved)', pcs
     for t, e in pcs:
         if isinstance(e, Exception):
             return None, 'call to L%d cannot be combined: %s: %s' % (t['to'], type(e).__name__, e), pcs
